@@ -1,6 +1,6 @@
 """C08 — reported match positions are valid and are a witness of the match."""
 ID = "C08"
-EXTRA_PROPS = ["AndMergeTables", "ReshapeFnsTables", "DisplayFnsTables"]   # merge_matched_items / range_char_indices as TRANSLATED from the source = the model
+EXTRA_PROPS = ["AndMergeTables", "ReshapeFnsTables", "DisplayFnsTables", "EngineLoopTables"]   # merge_matched_items / range_char_indices as TRANSLATED from the source = the model
 N_QUICK, N_THOROUGH = 12000, 500000
 STRICT_MODEL = True
 PARALLEL = 4
@@ -316,3 +316,4 @@ LEVEL_NOTE = ("Trusted: Lean kernel + propext/Classical.choice/Quot.sound; the h
 TECHNIQUE += ' + translator tie: AndEngine::merge_matched_items (rank source, per-kind contribution, sort/dedup passes) and MatchResult::range_char_indices (the two counted slices) translated from src/engine/andor.rs and src/lib.rs and proved equal to the model (Props/AndMergeTables.lean)'
 TECHNIQUE += '; reshape_string of src/util.rs translated statement by statement and proved to return the model value wherever the model says no panic (Props/ReshapeFnsTables.lean)'
 TECHNIQUE += '; the highlight fragments built by From<DisplayContext> / DefaultSkimItem::display translated and proved equal to Positions.fragments (Props/DisplayFnsTables.lean)'
+TECHNIQUE += '; the loop of match_item over the matching ranges in the exact / regex / fuzzy engines translated and proved equal to Field.matchBytes / matchChars (Props/EngineLoopTables.lean)'
